@@ -10,7 +10,7 @@
    footprints are compared with strace'd runs and concurrent runs are compared byte for byte with
    sequential ones. *)
 From Coq Require Import List String Arith Bool Permutation.
-From PC Require Import Conc.FootprintDefs Conc.FootprintGen Conc.FS2 Conc.Footprint.
+From PC Require Import Conc.FootprintDefs Conc.FootprintGen Conc.FS2 Conc.Footprint Conc.Disjoint.
 Import ListNotations.
 
 Theorem C20_interleavings_equivalent_partial : forall (V : Type) s1 s2, Permutation s1 s2 ->
@@ -32,3 +32,21 @@ Theorem C20_scratch_disjoint : forall t1 t2 e1 e2, t1 <> t2 -> In e1 scratch_ext
   (t1 ++ e1)%string <> (t2 ++ e2)%string.
 Proof. exact scratch_disjoint. Qed.
 Print Assumptions C20_scratch_disjoint.
+
+(* the "consequently": the generated footprints evaluated under the arguments of two runs (peval: a parameter's value if it
+   was given, the back-end alternative, the name mkstemp returned) name disjoint sets of files to be modified when the output,
+   save and temp names are distinct - the independence hypothesis of C20_interleavings_equivalent_partial *)
+Theorem C20_compiles_modify_disjoint_files : forall e1 e2 f1 f2 fr1 fr2 o1 s1 o2 s2,
+  e1 "outputname"%string = Some o1 -> e1 "savename"%string = Some s1 -> e2 "outputname"%string = Some o2 -> e2 "savename"%string = Some s2 ->
+  o1 <> o2 -> o1 <> s2 -> s1 <> o2 -> s1 <> s2 -> forall p, In p (mods e1 f1 fr1 compile_fx) -> In p (mods e2 f2 fr2 compile_fx) -> False.
+Proof. exact compiles_disjoint. Qed.
+Print Assumptions C20_compiles_modify_disjoint_files.
+
+Theorem C20_designs_modify_disjoint_files : forall e1 e2 f1 f2 fr1 fr2 o1 o2 t1 t2,
+  e1 "outfilename"%string = Some o1 -> e2 "outfilename"%string = Some o2 ->
+  peval e1 f1 fr1 scratch_base = Some t1 -> peval e2 f2 fr2 scratch_base = Some t2 ->
+  o1 <> o2 -> t1 <> t2 -> fr1 <> fr2 -> o1 <> fr2 -> o2 <> fr1 ->
+  (forall ext, In ext scratch_exts -> o1 <> (t2 ++ ext)%string /\ o2 <> (t1 ++ ext)%string /\ fr1 <> (t2 ++ ext)%string /\ fr2 <> (t1 ++ ext)%string) ->
+  forall p, In p (mods e1 f1 fr1 design_fx) -> In p (mods e2 f2 fr2 design_fx) -> False.
+Proof. exact designs_disjoint. Qed.
+Print Assumptions C20_designs_modify_disjoint_files.
